@@ -366,6 +366,10 @@ func genStoreCase(prof storeProfile) func(r *rand.Rand, tier string, idx int) []
 // genBigDead: few, large histories whose rounds record more than 1000 dead nodes, so that PruneBelowVersion takes
 // its multi-batch path (oracle only: too large for the model driver).
 func genBigDead(r *rand.Rand, tier string, idx int) []string {
+	if idx >= 24 {
+		// these cases are large (seconds and hundreds of MB each): a global VERIF_N override must not multiply them
+		return []string{"light", "round 1", "ins 0 ab 41", "save"}
+	}
 	const hexd = "0123456789abcdef"
 	n := 850 + r.Intn(300)
 	keys := make([]string, n)
